@@ -258,7 +258,12 @@ struct json_object *json_object_get(struct json_object *jso)
 		return jso;
 
 	// Don't overflow the refcounter.
+#if defined(HAVE_ATOMIC_BUILTINS) && defined(ENABLE_THREADING)
+	// Other threads may be updating it right now: read it atomically.
+	assert(__sync_add_and_fetch(&jso->_ref_count, 0) < UINT32_MAX);
+#else
 	assert(jso->_ref_count < UINT32_MAX);
+#endif
 
 #if defined(HAVE_ATOMIC_BUILTINS) && defined(ENABLE_THREADING)
 	__sync_add_and_fetch(&jso->_ref_count, 1);
@@ -277,7 +282,11 @@ int json_object_put(struct json_object *jso)
 	/* Avoid invalid free and crash explicitly instead of (silently)
 	 * segfaulting.
 	 */
+#if defined(HAVE_ATOMIC_BUILTINS) && defined(ENABLE_THREADING)
+	assert(__sync_add_and_fetch(&jso->_ref_count, 0) > 0);
+#else
 	assert(jso->_ref_count > 0);
+#endif
 
 #if defined(HAVE_ATOMIC_BUILTINS) && defined(ENABLE_THREADING)
 	/* Note: this only allow the refcount to remain correct
